@@ -28,6 +28,10 @@ type StdinSpec struct {
 	Tty    bool
 	Data   []byte
 	Chunks []int // sizes of successive reads, cycled; empty = as much as asked
+	// File, if set, makes stdin a read-only descriptor on that regular file
+	// (gts < file), positioned at Offset (the caller may have read a part).
+	File   string
+	Offset int64
 }
 
 // ProcSpec is everything that distinguishes one simulated process.
@@ -91,7 +95,10 @@ type Proc struct {
 func (w *World) StartProc(spec ProcSpec) *Proc {
 	w.procSeq++
 	p := &Proc{ID: w.procSeq, Faults: spec.Faults, fds: map[int]*File{}, nextFd: 3, pl: spec.PowerLoss}
-	if spec.Stdin.Tty {
+	if ino, ok := w.Files[clean(spec.Stdin.File)]; spec.Stdin.File != "" && ok {
+		p.Stdin = &File{w: w, name: "/dev/stdin", path: clean(spec.Stdin.File), kind: kReg, ino: ino, off: spec.Stdin.Offset, flag: 0, fd: 0}
+		ino.open++
+	} else if spec.Stdin.Tty {
 		p.Stdin = &File{w: w, name: "/dev/stdin", kind: kTty, fd: 0}
 	} else {
 		p.Stdin = &File{w: w, name: "/dev/stdin", kind: kPipeIn, fd: 0, pdata: spec.Stdin.Data, chunks: spec.Stdin.Chunks}
